@@ -43,7 +43,7 @@ class G:
         h.reset()
         self.V = V = {n: h.new("Vertex", n, attributes=DictV([["name", n]])) for n in "abcx"}
         self.L = [h.new("DirectedEdge", "e_ab", V["a"], V["b"]), h.new("DirectedEdge", "e_bc", V["b"], V["c"]), h.new("UnDirectedEdge", "e_ac", V["a"], V["c"]),
-                  h.new("DirectedEdge", "e_aa", V["a"], V["a"]), h.new("DirectedEdge", "e_ax", V["a"], V["x"])]
+                  h.new("DirectedEdge", "e_aa", V["a"], V["a"]), h.new("DirectedEdge", "e_ax", V["a"], V["x"]), h.new("DirectedEdge", "e_bN", V["b"], None)]
         if unknown_link:
             self.L.append(h.new("SymTwo", "e_cb", V["c"], V["b"]))
         self.U = h.new("Universe", "U", vertices=Seq([V["a"], V["b"], V["c"]], "list"))
@@ -106,7 +106,7 @@ def plantuml_call(h, fn, g, cb):
 
 GOOD = {
     "filterfunc": lambda I, n, a, k: True, "ff_via": lambda I, n, a, k: True, "ff_result": lambda I, n, a, k: True,
-    "rfunc": lambda I, n, a, k: mkstr([SAtom("R", a[0])]), "sort": lambda I, n, a, k: {"a": 0, "b": 3, "c": 2, "x": 1}[a[0].name],
+    "rfunc": lambda I, n, a, k: mkstr([SAtom("R", a[0])]), "sort": lambda I, n, a, k: {"a": 0, "b": 3, "c": 2, "x": 1}[a[0].name] if a[0] is not None else 9,
     "rvfunc": lambda I, n, a, k: mkstr([SAtom("Label", a[0])]), "refunc": lambda I, n, a, k: mkstr([SAtom("Title", a[0])]),
     "user_render_func": lambda I, n, a, k: mkstr([SAtom("Decl", a[0]), "\n"]),
 }
@@ -176,11 +176,14 @@ def run(ctx):
             try:
                 # fault-free baselines
                 base = {}
-                for mode in ("none", "good"):
+                for mode in ("none", "good", "good-cold"):
                     g = G(h, caching)
+                    # "cold": the reference observation is taken on a twin graph, so the operation itself meets empty memos
                     obs0 = observe(h, g)
+                    if mode == "good-cold":
+                        g = G(h, caching)
                     pre = heap(g.objs)
-                    cbs = mkcbs(cbnames if mode == "good" else ())
+                    cbs = mkcbs(cbnames if mode != "none" else ())
                     out = thunk(g, cbs)
                     post = heap(g.objs)
                     obs1 = observe(h, g)
@@ -192,7 +195,8 @@ def run(ctx):
                     res.ob(ok, sig=(name, caching, mode), sample={"entry": name, "caching": caching, "callbacks": mode, "outcome": str(outsig(out))[:200]})
                     if not ok:
                         res.violation("UNCHANGED", qual, f"fault=none,caching={caching}", f"{name} (callbacks: {mode}) changes the graph: {diff(pre, post)}", replay=replay(name))
-                    base[mode] = (outsig(out), {c: len(cbs[c].calls) for c in cbnames if cbs[c] is not None})
+                    if mode != "good-cold":
+                        base[mode] = (outsig(out), {c: len(cbs[c].calls) for c in cbnames if cbs[c] is not None})
                 # faults
                 counts = base["good"][1]
                 for c in cbnames:
